@@ -56,6 +56,8 @@ class Submodule(Module):
     def resolve_inherit(self, obj_tree, inherit_version):
         if not self.ancestor_name:
             return
+        # Forget the previous parent, it may have been renamed or removed
+        self.ancestor_obj = None
         if self.ancestor_name in obj_tree:
             self.ancestor_obj = obj_tree[self.ancestor_name][0]
 
